@@ -190,13 +190,22 @@ def r01_5(ctx, fx):
     fn = ctx.fn(fx, "crypto::ed25519::PublicKey::verify", "R01.5")
     if fn is not None:
         rs = guards.rootstrs(fn, {"c": [0]})
-        ok = not any(x in ("const:0", "const:1") for x in rs) and any("is_ok" in x for x in rs)
+        DALEK = r"Verifier.*::verify$|VerifyingKey::verify(_strict)?$"
+        # the verdict is never the constant true, and where it is not the constant false it is is_ok() of the verification result
+        # (a malformed signature answered with `return false` before the verifier runs is a rejection)
+        ok = "const:1" not in rs and any("is_ok" in x for x in rs)
+        direct = fn.calls(DALEK)
         inner = fx.fn("crypto::ed25519::PublicKey::verify::{closure#0}")
-        ok2 = inner is not None and bool(inner.calls(r"Verifier.*::verify$|VerifyingKey::verify(_strict)?$"))
-        if inner is not None:
-            ctx.bodies.add((fx.cfg, inner.key))
-            irs = guards.rootstrs(inner, {"c": [0]})
-            ok2 = ok2 and not any(x.startswith("const:Ok") or "Result::Ok" in x for x in irs)
+        if direct:
+            # the verifier is called in this body: is_ok() is applied to its result
+            ok2 = any(any(("call", v.name) in fn.roots(a) for v in direct) for c in fn.calls(r"result::Result(<.*>)?::is_ok$") for a in c.args[:1])
+        else:
+            ok = ok and "const:0" not in rs
+            ok2 = inner is not None and bool(inner.calls(DALEK))
+            if inner is not None:
+                ctx.bodies.add((fx.cfg, inner.key))
+                irs = guards.rootstrs(inner, {"c": [0]})
+                ok2 = ok2 and not any(x.startswith("const:Ok") or "Result::Ok" in x for x in irs)
         if not ok:
             # `matches!(result, Ok(..))`: the verdict is the constant true only on the Ok edge of a switch on the verification result
             d0 = fn.defs().get(0, [])
